@@ -2,6 +2,7 @@ package frugal
 
 import (
 	"context"
+	"errors"
 
 	"github.com/apache/thrift/lib/go/thrift"
 )
@@ -67,6 +68,12 @@ func (client *FStandardClient) Call(fctx FContext, method string, args, result t
 	resultTransport, err := client.transport.Request(fctx, payload)
 	if err != nil {
 		return err
+	}
+	if resultTransport == nil {
+		// The transport had no reply to hand back: the HTTP transport returns
+		// (nil, nil) for the empty frame a server sends in answer to a one-way.
+		return thrift.NewTProtocolExceptionWithType(thrift.INVALID_DATA,
+			errors.New("frugal: missing data, empty response to a two-way request"))
 	}
 	return client.processReply(ctx, fctx, method, result, resultTransport)
 }
